@@ -52,7 +52,8 @@ def cases(tier, seed):
         yield {"kind": "switch", "problem": ps, "maxcor": int(rng.integers(1, 7)), "maxiter": int(rng.integers(6, 14)),
                "switch_at": int(rng.integers(0, 7)), "variant": gen.pick(rng, ["rescale", "reg", "indefinite", "indefinite", "indefinite"]),
                "vseed": int(rng.integers(0, 2**31 - 1)), "strength": float(rng.uniform(0.3, 3.0)),
-               "eps_SY": float(gen.pick(rng, [2.2e-16, 2.2e-16, 1e-3, 1e-2, 0.1]))}
+               "eps_SY": float(gen.pick(rng, [2.2e-16, 2.2e-16, 1e-3, 1e-2, 0.1])),
+               "rewrite": gen.pick(rng, ["new_deque", "new_deque", "same_deque", "same_arrays"])}
 
 
 # ---------------------------------------------------------------------------
@@ -72,6 +73,21 @@ def make_fB(P, spec):
     Q = (Qm * ev) @ Qm.T
     Q = (Q + Q.T) / 2
     return (lambda x: P.f(x) + 0.5 * float(x @ (Q @ x))), (lambda x: P.g(x) + Q @ x), "indefinite"
+
+
+def rewritten_history(spec, X, G, gB):
+    """How the user's update function hands the rewritten gradients back: a new deque (default), the same deque with its
+    entries replaced, or the same deque and the same arrays overwritten in place."""
+    mode = spec.get("rewrite", "new_deque")
+    if mode == "new_deque":
+        return deque(gB(np.array(p, copy=True)) for p in X)
+    for i, p in enumerate(X):
+        v = gB(np.array(p, copy=True))
+        if mode == "same_arrays":
+            G[i][:] = v
+        else:
+            G[i] = v
+    return G
 
 
 class Switched:
@@ -156,7 +172,7 @@ def switch_trace(spec, extra_cfg=None):
         calls["n"] += 1
         if j == spec["switch_at"] and not S.on:
             S.on = True
-            Gn = deque(gB(np.array(p, copy=True)) for p in X)
+            Gn = rewritten_history(spec, X, G, gB)
             xo = np.array(X[-1], copy=True) if len(X) else np.array(x, copy=True)
             return fB(np.array(x, copy=True)), fB(xo), gB(np.array(x, copy=True)), Gn
         return f0, f0_old, grad, G
@@ -181,7 +197,7 @@ def run_switch(spec, out):
             S.on = True
             info["switched_at_call"] = j
             info["nX_at_switch"] = len(X)
-            Gn = deque(gB(np.array(p, copy=True)) for p in X)
+            Gn = rewritten_history(spec, X, G, gB)
             xo = np.array(X[-1], copy=True) if len(X) else np.array(x, copy=True)
             return fB(np.array(x, copy=True)), fB(xo), gB(np.array(x, copy=True)), Gn
         return f0, f0_old, grad, G
